@@ -122,6 +122,11 @@ pub fn nav<S: Src, const MUT: bool, const N: usize>(s: &mut S) {
     let (l, rr, hl, hr): (Option<Loc>, Option<Loc>, bool, bool);
     if MUT {
         let v = map.__verif_view_mut(loc.virt, loc.idx);
+        {
+            // borrowing a mutable view as a read-only one keeps its position
+            let ro = (&v).view();
+            check!(s, loc_eq(&read_loc(ro.__verif_loc()), &loc) && *ro.prefix() == loc.prefix(&nodes), "C11:a read-only borrow of a mutable view addresses the same position");
+        }
         hl = v.has_left();
         hr = v.has_right();
         let op = s.u8();
